@@ -71,6 +71,12 @@ func (c09) Gen(rng *rand.Rand, tier string, idx int) Case {
 			}
 		}
 	}
+	if mode == "sql" && rng.Intn(3) == 0 && len(seq) > 2 {
+		// HAVING on last_value(id): the early chunks of every key are rejected, the later ones pass —
+		// a rejected chunk must leave nothing behind for the next one
+		c.Cfg = append(c.Cfg, []string{"having", strconv.Itoa(len(seq)/2 + 1)})
+		c.Stat = append(c.Stat, "sql-having")
+	}
 	reaps := 0
 	for i, k := range seq {
 		c.Ops = append(c.Ops, append([]string{"row", strconv.Itoa(i + 1)}, pool[k]...))
@@ -215,6 +221,10 @@ func c09SQL(c Case, arity, n int) [][][]string {
 	gf := c09Fields(arity, nest)
 	sel := append(append([]string(nil), gf...), "count(*) AS c", "collect(id) AS ids", "first_value(id) AS f", "last_value(id) AS l")
 	sql := "SELECT " + strings.Join(sel, ", ") + " FROM stream GROUP BY " + strings.Join(append(append([]string(nil), gf...), fmt.Sprintf("CountingWindow(%d)", n)), ", ")
+	having := c04CfgVal(c, "having", "")
+	if having != "" {
+		sql += " HAVING l >= " + having + " OR l < 0" // the sentinel rows (negative ids) always pass
+	}
 	s := streamsql.New(streamsql.WithDiscardLog())
 	defer s.Stop()
 	if err := s.Execute(sql); err != nil {
